@@ -96,12 +96,14 @@ class SimLock:
         if not self._locked:
             raise RuntimeError('release unlocked lock')
         self._locked = False
-        if self._waiters:
-            sim = _CURRENT
-            if sim is not None:
-                sim._lock_released(self)
-            else:
-                self._waiters = []
+        # every release is a scheduling point (also without waiters): what a
+        # thread does with a value it computed under the lock happens after
+        # other threads had a chance to run
+        sim = _CURRENT
+        if sim is not None:
+            sim._lock_released(self)
+        else:
+            self._waiters = []
 
     def __exit__(self, *a):
         self.release()
@@ -277,6 +279,8 @@ class Sim:
         self.atomic_tid = None    # thread whose scheduling points are suspended
         self.atomic_breaks = 0
         self.park_requests = {}
+        self.stall_requests = {}
+        self.stalls = 0
         self.in_pred = False
         self.wake_preds = {}
         self.parks = 0
@@ -407,6 +411,12 @@ class Sim:
         library calls)."""
         self.park_requests[self.current.tid] = [pred, max_steps, skip]
 
+    def stall_at_next_point(self, duration):
+        """Fault: the calling thread is stalled (descheduled by the OS, a GC or
+        VM pause) for `duration` simulated seconds at its next scheduling
+        point, while the clock and every other thread go on."""
+        self.stall_requests[self.current.tid] = duration
+
     def _eval(self, pred):
         """Predicates read library state (properties of /repo code): with
         statement-level pre-emption on, those reads must not be scheduling
@@ -486,6 +496,13 @@ class Sim:
             self._try_interrupt()
         for h in self.step_hooks:
             h(self)
+        if self.stall_requests and cur.tid in self.stall_requests:
+            d = self.stall_requests.pop(cur.tid)
+            self.stalls += 1
+            cur.state = SLEEPING
+            self._push_timer(cur, self.now + d)
+            self._reschedule()
+            return
         if self.park_requests and cur.tid in self.park_requests and \
                 self._park_due(cur.tid):
             pred, n, _ = self.park_requests.pop(cur.tid)
